@@ -11,9 +11,10 @@ func init() {
 	core.Register(&core.Check{
 		ID:        "C12",
 		Level:     "exploration",
+		Also:      []string{"C12S"}, // consensus-side lane: held block = block the held parts encode (h/checks/c12sim)
 		Technique: "runtime monitoring of the real types.Block / types.PartSet code under generated blocks, reflective single-field perturbations and adversarial part-delivery schedules; oracles: identity law over (Block.Hash, MakePartSet.Header), byte comparison with the proposer's encoding, harness re-implementation of the Merkle audit path",
 		Rule: "two case families (index%5==0: identity, else: part sets). identity case = one generated block (random header, 0-40 signed account txs of 5 kinds, 0-4 evidence, commit of 4-10 validators) x every primitive leaf of header / sampled txs / evidence / commit + order and membership changes of txs / evidence / precommits, each with and without re-deriving the header's derived hashes; evaluated on a fresh decode of the perturbed encoding. " +
-			"parts case = one block, one part size from {1,7,64,256,1000,4096,65536,len,len+1,few}, all arrival orders for <=5 parts (else random + in-order + reverse), interleaved with duplicates and 16 kinds of forged parts (truncated/extended/bit-flipped bytes, negative / >=total / shifted index, every aunt flipped, aunt list shortened/extended/swapped/re-lengthed, proofs of other indices, parts of another block with the same total), half of the schedules through the part's wire encoding. " +
+			"parts case = one block, one part size from {1,7,64,256,1000,4096,65536,len,len+1,few}, all arrival orders for <=5 parts (else random + in-order + reverse), interleaved with duplicates and 17 kinds of forged parts (inner-node pre-image with shortened path, truncated/extended/bit-flipped bytes, negative / >=total / shifted index, every aunt flipped, aunt list shortened/extended/swapped/re-lengthed, proofs of other indices, parts of another block with the same total), half of the schedules through the part's wire encoding. " +
 			"non-trivial: identity = >=2 tx kinds, >=1 evidence, >=4 precommits, >=50 evaluated perturbations; parts = >=2 parts, >=3 forged kinds delivered and >=1 forgery arrived before the honest part of its index. distinct by hash of the block encoding (+ part size)",
 		Assumptions: []string{
 			"keccak256 is collision resistant and is used as a black box by the harness's reference audit path",
